@@ -1,4 +1,4 @@
-HOOK_COMMITS = ["d747c05", "verif hook: export piece splitting / substitution / hash pre-image helpers of the linker under build tag verif", "verif hook: export printUnquotedUTF16 under build tag verif", "verif hook: synchronous access to a context's watch predicates under build tag verif", "verif hook: export css hex colour helpers under build tag verif"]
+HOOK_COMMITS = ["d747c05", "verif hook: export piece splitting / substitution / hash pre-image helpers of the linker under build tag verif", "verif hook: export printUnquotedUTF16 under build tag verif", "verif hook: synchronous access to a context's watch predicates under build tag verif", "verif hook: export css hex colour helpers under build tag verif", "verif: tree-shaking observation hook (build tag verif; no-op otherwise)"]
 
 TEXT = {
     "C07": {
@@ -50,6 +50,16 @@ TEXT = {
         "level": "Lean theorem (all keys, all requests) that applicable subpath patterns never tie in PATTERN_KEY_COMPARE, so esbuild's sorted first-match is Node's unique best match independent of JSON key order; the pattern selection of the real resolver is tied to the model by correspondence on a mock file system. Agreement of whole resolutions with Node is decided by asking Node itself on generated package trees: a search.",
         "note": "Trusted: Lean kernel, correspondence harness, Node 20 as oracle. Legacy trailing-slash mappings and specifiers ending in / are excluded as in the property; percent-encoded specifiers are not generated (esbuild does not URL-decode them: candidate finding, not yet probed).",
         "technique": "Lean 4 proof on hand-written model + differential correspondence; Node-as-oracle resolution search",
+    },
+    "C04": {
+        "level": "Lean theorems over a model of the linker's liveness marking on arbitrary part graphs: dependencies of live parts are live (no reference to a removed declaration), a part of an included file is dropped only if flagged removable with no kept import and tree shaking applies, dropped parts are unreferenced, imports of files with side effects are kept unless annotated, and the live set is the least fixed point. Tied by correspondence: the real part graph and IsLive marks of real builds (verif observation hook) vs the model. The purity classification that produces the flags is a search: ~110 statement templates hiding probes, native Node vs bundles with tree shaking on/off.",
+        "note": "Trusted: Lean kernel, hook + harness, Node 20. CanBeRemovedIfUnused and symbol-use dependencies are inputs of the model, not modelled; annotation-driven removal (@__PURE__, sideEffects:false) is only covered for the marking, not for call-level purity.",
+        "technique": "Lean 4 proof on hand-written model + differential correspondence; Node run-time search",
+    },
+    "C08": {
+        "level": "Lean theorems: the diagnostics comparator is a strict weak order whose unordered pairs have identical keys, so the sorted diagnostics do not depend on arrival order; the entry-point serializer admits only index order under every schedule. Tied by correspondence (real sort.Stable(SortableMsgs), real Serializer with goroutines). Whole-build determinism is a search: repeated in-process builds under varying GOMAXPROCS, random load delays, concurrent siblings and a moved project, comparing files, metafile, mangle cache and diagnostics. One defect found and fixed (diagnostics without location kept arrival order).",
+        "note": "Trusted: Lean kernel, harness, Go string order. The Go scheduler is perturbed, not enumerated: the search cannot show absence of a rare interleaving.",
+        "technique": "Lean 4 proof on hand-written model + differential correspondence; repeated-build search",
     },
     "C10": {
         "level": "Lean theorems over a model of chunk assignment: executable reachability is graph reachability (pigeonhole, any graph size), every static cross-chunk import goes to a chunk shared by strictly more entry points hence no static import cycle, edges only between existing chunks, each live file in exactly one chunk, used bindings and everything an entry reaches are covered by a static chunk import. Tied by correspondence with real --splitting builds via the metafile. Run-time equivalence with the unsplit bundle is a search (every order of entry points in one Node runtime). One recorded known finding.",
